@@ -412,6 +412,8 @@ class CtlWriter:
                         if instruction.inst_ctl == 'C' and instruction.length:
                             has_bases = True
                     first_instruction = sb_instructions[0]
+                    if ctl == 'C' and not first_instruction.operation:
+                        continue
                     if ctl != 'M' or COMMENTS in self.elements:
                         if ctl == 'M':
                             offset = first_instruction.comment.rowspan
